@@ -265,3 +265,33 @@ PROPS['C07'] = {
     'assumptions': COMMON_ASSUMPTIONS + ['the storage honours the Read contract (returns n <= buf.len())',
                                          'the storage position is 0 at mount (documented precondition)'],
 }
+
+PROPS['C17'] = {
+    'modules': ['c17'],
+    'level': 'other',
+    'quick_configs': ['default', 'noalloc'],
+    'thorough_configs': ALL,
+    'controls': [],
+    'floors': {'default': {'T1': 100, 'T2': 1, 'T3.index': 1, 'T3b': 1, 'T4': 1}, 'noalloc': {'T1': 100, 'T2n': 1}},
+    'rule_text': 'one obligation per panic site (MIR Assert / panicking library call) in a function reachable from '
+                 'Dir::iter, DirIter::next, open_*, every DirEntry accessor and the handle destructors, evaluated in '
+                 'every calling context, in the alloc and in the fixed-buffer build; plus the length bound, the fallback '
+                 'must-calls, the sequence-number decision table, the paired reset and the progress condition',
+    'explanation': 'T1: context-sensitive interval analysis of the decode path for arbitrary slot contents (all field '
+                   'values by type range): automatic discharge by masks (order & 0x1F), branch refinement (1 <= index '
+                   '<= 20 makes [pos..pos+13] fit the 260-unit fixed buffer), symbolic slice lengths (x..x+13, '
+                   '[..name_len] on both sides of copy_from_slice), rposition/map_or/to_digit models, x % y < y facts '
+                   'and validated-BPB invariants; the residue is listed in tables/discharge.json with reasons (valid '
+                   'cluster pointers = the statement\'s premise; documented API preconditions; struct invariants of '
+                   'DiskSlice/ShortName). T2: a run longer than 255 units is discarded. T3: checksum validated before '
+                   'hand-over and a mismatch clears; unfinished runs cleared; sequence number 0 and > 20 rejected '
+                   '(decision table, no value reaches a panic); skipped slots reset accumulator and slot range together '
+                   '(T3b). T4: every cycle reads a slot. Not decided: agreement with an independent decoder\'s verdict.',
+    'claim': 'No panic on the decode/accessor path for arbitrary 32-byte slot contents (given valid cluster pointers), in '
+             'both buffer variants; names <= 255 units; broken runs fall back. Termination beyond the progress condition '
+             'and agreement with an independent decoder are not decided.',
+    'level_note': 'D4 entries are beliefs with written reasons (24 on the pinned tree), matched by operand provenance',
+    'technique': 'static analysis: context-sensitive interval abstract interpretation of MIR + decision-region walk',
+    'assumptions': COMMON_ASSUMPTIONS + ['cluster pointers are valid (premise of the statement)',
+                                         'the storage honours the Read contract (n <= buf.len())'],
+}
